@@ -136,6 +136,33 @@ func (x *RIBMon) Close() {
 	}
 }
 
+// Reannounce makes the programming session (still the primary) announce a higher election
+// id and use it from then on. Held operations are its own: they stay held. Returns a
+// problem if the announcement is not answered with the announced id.
+func (x *RIBMon) Reannounce() []string {
+	if x.Via == nil || x.Dead {
+		return nil
+	}
+	next := &spb.Uint128{High: x.Stamp.High, Low: x.Stamp.Low + 1}
+	if x.Stamp.Low%3 == 2 {
+		next = &spb.Uint128{High: x.Stamp.High + 1, Low: 0}
+	}
+	rep, err := x.Via.Elect(next)
+	x.Trace = append(x.Trace, fmt.Sprintf("the programming session announces (%d,%d) -> %v %v", next.High, next.Low, rep, err))
+	if err == drv.ErrWatchdog {
+		x.Dead = true
+		return []string{deadMsg}
+	}
+	if err != nil {
+		return []string{fmt.Sprintf("announcement-rejected|the primary announcing a higher id: %v", err)}
+	}
+	if rep.GetHigh() != next.High || rep.GetLow() != next.Low {
+		return []string{fmt.Sprintf("reported-id-not-running-max|the primary announced (%d,%d) and was told %v", next.High, next.Low, rep)}
+	}
+	x.Stamp = next
+	return nil
+}
+
 // applyVia programs one operation through the Modify session.
 func (x *RIBMon) applyVia(spec gen.OpSpec) (oks, fails []uint64, err error) {
 	spec.Op.ElectionId = x.Stamp
